@@ -110,11 +110,12 @@ func main() {
 		timeout = *tmo
 	}
 	eng := &interp.Engine{
-		Prog: ld.prog, Sizes: ld.sizes, KnownOpen: map[string]bool{}, MaxPicks: 64, Unwind: 64, MaxInstr: 5_000_000,
-		SolverArgv: []string{"z3", "-in"}, SolverName: "z3 4.8.12", SolverTimeoutMs: timeout,
-		InitPkgs:    map[string]bool{"strconv": true, "unicode/utf8": true, "math": true, "math/bits": true, "unicode": true, "sort": true, "bytes": true, "io": true},
-		LenientPkgs: map[string]bool{},
-		Trace:       *trace, SessionPaths: 150, LogDir: *logdir, Thorough: thorough,
+		Prog: ld.prog, Sizes: ld.sizes, KnownOpen: map[string]bool{}, MaxPicks: 300, Unwind: 64, MaxInstr: 5_000_000,
+		SolverArgv: []string{"z3", "-in"}, SolverName: "z3 4.8.12 (second opinion on unknown: z3 5.1.0)", SolverTimeoutMs: timeout,
+		SecondSolverArgv: []string{"z3-new", "-in"},
+		InitPkgs:         map[string]bool{"strconv": true, "unicode/utf8": true, "math": true, "math/bits": true, "unicode": true, "sort": true, "bytes": true, "io": true},
+		LenientPkgs:      map[string]bool{},
+		Trace:            *trace, SessionPaths: 150, LogDir: *logdir, Thorough: thorough,
 	}
 	for _, p := range cfg.Lenient {
 		eng.LenientPkgs[pkgPathOf(p)] = true
